@@ -79,10 +79,12 @@ fn main() {
             let shard: usize = args[5].parse().unwrap_or(0);
             let nshards: usize = args[6].parse().unwrap_or(1);
             let outdir = PathBuf::from(&args[7]);
+            let part: usize = args.get(8).and_then(|s| s.parse().ok()).unwrap_or(0);
+            let skip: Option<String> = args.get(9).cloned();
             pvmon::run::on_big_stack(move || {
                 pvmon::run::install_panic_hook();
                 let check = pvmon::checks::by_id(&id).expect("check id");
-                worker_main(check.as_ref(), tier, seed, shard, nshards, &outdir);
+                worker_main(check.as_ref(), tier, seed, shard, nshards, &outdir, part, skip);
             });
         }
         "case" => {
